@@ -173,6 +173,10 @@ def check_property(prop, tier):
             specs += boundary_specs(tier)
         if prop in ("C02", "C05", "C09", "C01"):
             specs += deep_specs(tier)
+        if prop == "C16":
+            # serde round trips with payload types that exercise more of serde's data model
+            for i, sp in enumerate(specs):
+                sp["extra"] = sp.get("extra", []) + ["--payload", ["u32", "string", "rich", "option"][i % 4]]
         if prop == "C08":
             # payload objects with identity and destructor: the events carry the slots whose destructor ran
             for sp in specs:
@@ -192,7 +196,12 @@ def check_property(prop, tier):
 
 
 def check_c14(v, tier):
-    cfg = "GenPrint_s4" if tier == "quick" else "GenPrint_s5"
+    for cfg in (["GenPrint_s4", "GenPrintShapes_k6"] if tier == "quick" else ["GenPrint_s5", "GenPrintShapes_k7"]):
+        check_c14_cfg(v, tier, cfg)
+    v.assumptions.append("payload renderings: 1-3 lines, a 3-line payload has an empty middle line, multi-byte characters, written to the formatter in one piece / line by line / character by character; lines whose payload text is empty are compared modulo trailing blanks")
+
+
+def check_c14_cfg(v, tier, cfg):
     path, meta = ensure_bundles(cfg)
     for profile in (("debug",) if tier == "quick" else ("debug", "release")):
         b = build_harness(profile)
@@ -210,11 +219,10 @@ def check_c14(v, tier):
         v.cov["traces_validated_against_impl"] += r["bundles"] - r["abandoned_policy"]
         v.cov["evaluations"] += r["renderings"]
         v.cov["distinct_nontrivial"] += r["multi_line_renderings"]
-        v.cov["parts"].append({"part": "print:" + profile, "what": "debug_pretty_print output of the real crate ({}, {:#}, {:?}, {:#?}) compared line by line with the TLC rendering",
+        v.cov["parts"].append({"part": "print:%s:%s" % (cfg, profile), "what": "debug_pretty_print output of the real crate ({}, {:#}, {:?}, {:#?}) compared line by line with the TLC rendering",
                                **{k: r[k] for k in ("bundles", "renderings", "multi_line_renderings", "lines_compared", "abandoned_policy", "debug_assertions")}})
         v.cov["samples"] += r["samples"][:2]
         v.add_findings(r["findings"], "print:" + profile)
-    v.assumptions.append("payload renderings: 1-3 lines, a 3-line payload has an empty middle line; lines whose payload text is empty are compared modulo trailing blanks")
 
 
 def check_c15(v, tier):
@@ -449,6 +457,9 @@ def setup():
     ensure_bundles("Gen_s4g1")
     ensure_bundles("GenShapes_k7")
     ensure_bundles("GenRecycled_k6")
+    ensure_bundles("GenPrint_s4")
+    ensure_bundles("GenPrintShapes_k6")
+    ensure_bundles("TreeMacro6")
     for m in MC_QUICK:
         run_mc(m)
     print("setup ok")
